@@ -1,5 +1,6 @@
 """C10 correspondence: parse / populate values and create_pointer selection."""
 
+import random
 import warnings
 
 import numpy as np
@@ -185,7 +186,28 @@ def run(rep, tier, rng):
             cents = c.lst([c.zlist(v) for v in ents])
             big = 4 ** 4 * d ** 3
 
+            def ill_conditioned(x):
+                # normalising is discontinuous at the zero vector: where the exact value of the operand is zero but the
+                # floating-point one is rounding noise (a nilpotent VTB / TVTB matrix squared, say), exact and float
+                # results legitimately differ; such cases are skipped and counted.  An exact 0.0 is kept.
+                if not isinstance(x, tuple):
+                    return False
+                if x[0] == "normalized":
+                    try:
+                        with warnings.catch_warnings():
+                            warnings.simplefilter("ignore")
+                            arg = voc.parse(to_text(x[1], random.Random(0)))
+                        nrm = float(np.linalg.norm(arg.v))
+                        if 0.0 < nrm < 1e-9:
+                            return True
+                    except Exception:  # noqa
+                        pass
+                return any(ill_conditioned(y) for y in x[1:])
+
             def parse_case(e, text, kind):
+                if kind == "random" and ill_conditioned(e):
+                    rep.count("normalisation-of-rounding-noise-skipped")
+                    return
                 with warnings.catch_warnings():
                     warnings.simplefilter("ignore")
                     o = c.observe(lambda: voc.parse(text))
